@@ -8,12 +8,15 @@ load_all()
 props = sys.argv[1:]
 path = os.path.join(os.path.dirname(os.path.dirname(os.path.abspath(__file__))), "baseline", "obligations.json")
 base = json.load(open(path)) if os.path.exists(path) else {}
-cids = sorted(c for c, ct in C.CONTRACTS.items() if not ct.trusted and (not props or ct.prop in props))
+cids = sorted(c for c, ct in C.CONTRACTS.items() if not ct.trusted and (not props or ct.prop in props or set(props) & set(ct.also)))
 res = verify_many(cids, timeout_ms=30000)
-for prop in sorted({C.CONTRACTS[c].prop for c in cids}):
+allprops = sorted({C.CONTRACTS[c].prop for c in cids} | {p for c in cids for p in C.CONTRACTS[c].also})
+for prop in allprops:
+    if props and prop not in props:
+        continue
     clauses, sha = {}, {}
     for cid in cids:
-        if C.CONTRACTS[cid].prop != prop:
+        if C.CONTRACTS[cid].prop != prop and prop not in C.CONTRACTS[cid].also:
             continue
         r = res[cid]
         if not r.get("ok"):
